@@ -22,10 +22,10 @@ sys.path.insert(0, os.path.dirname(os.path.dirname(os.path.abspath(__file__))))
 import common  # noqa: E402
 
 KEY_MIDSEND = "c10:worker-killed-mid-result-send:manager-blocked-in-recv"
-DEATH_IN_TASK = ("arg_unpickle", "task_start", "mid_task", "result_pickle", "mid_send", "after_send")
+DEATH_IN_TASK = ("mgr_busy", "arg_unpickle", "task_start", "mid_task", "result_pickle", "mid_send", "after_send")
 UNSERIALIZE = ("arg_unloadable", "result_garbage")
-BETWEEN = ("idle_settled", "idle_unsettled", "startup_gen", "startup_reduce")
-TRAP = {"arg_unpickle": "TDie", "task_start": "TDie", "mid_task": "TDie", "result_pickle": "TDie",
+BETWEEN = ("idle_settled", "idle_unsettled", "startup_gen", "startup_reduce", "submit_window")
+TRAP = {"mgr_busy": "TDieBusy", "arg_unpickle": "TDie", "task_start": "TDie", "mid_task": "TDie", "result_pickle": "TDie",
         "mid_send": "TMidSend", "after_send": "TAfterSend", "result_garbage": "TGarbage",
         "arg_unloadable": "TBadArgs"}
 
@@ -85,13 +85,23 @@ def quick_scenarios(rng):
         sc("idle_settled", "SIGBUS", 3, [2]),
         sc("task_start", "SIGUSR1", 3, [1], managed=True),
         sc("startup_gen", "SIGRT+3", 2, [0]),
+        # death while the manager thread is NOT in wait(): task 0 returns a result whose un-pickling keeps the
+        # manager busy until the victim (task 1) is dead; nobody dies later
+        sc("mgr_busy", "exit", 2, [1]),
+        sc("mgr_busy", "SIGKILL", 3, [1], managed=True),
+        sc("mgr_busy", "SIGSEGV", 2, [1], n_tasks=2),
+        # idle worker killed inside the next call's ONLY submit, between the broken-flag check and the
+        # registration of the work item (forced by wrapping process_executor._WorkItem from outside)
+        sc("submit_window", "SIGKILL", 2, [0]),
+        sc("submit_window", "SIGKILL", 3, [0, 1, 2], managed=True),
+        sc("submit_window", "SIGTERM", 2, [1], managed=True),
     ]
     return S + random_scenarios(rng, 3)
 
 
 def random_scenarios(rng, n, allow_midsend=False):
     out = []
-    kinds = ["arg_unpickle", "task_start", "mid_task", "result_pickle", "after_send",
+    kinds = ["mgr_busy", "submit_window", "arg_unpickle", "task_start", "mid_task", "result_pickle", "after_send",
              "idle_settled", "idle_unsettled", "startup_gen", "startup_reduce", "arg_unloadable", "result_garbage"]
     for _ in range(n):
         kind = rng.choice(kinds + (["mid_send"] if allow_midsend else []))
@@ -102,6 +112,8 @@ def random_scenarios(rng, n, allow_midsend=False):
             how = rng.choice(["SIGKILL", "SIGSEGV", "SIGTERM"] + EXTRA_SIGNALS)
         elif kind == "after_send":
             victims, how = [0], "SIGKILL"
+        elif kind == "mgr_busy":
+            victims, how = [1], rng.choice(["SIGKILL", "SIGSEGV", "exit"] + EXTRA_SIGNALS)
         elif kind in UNSERIALIZE or kind == "mid_send":
             victims, how = [rng.randrange(n_tasks)], "SIGKILL"
         else:
@@ -276,7 +288,7 @@ Require Import JV.Model.LokyExec JV.Model.LokyDrive.
 Import ListNotations."""
 
 
-RACY = ("after_send", "idle_unsettled", "startup_gen", "startup_reduce")
+RACY = ("after_send", "idle_unsettled", "startup_gen", "startup_reduce", "submit_window")
 MASKS = ["mask1", "mask2", "mask3", "mask4"]
 
 
@@ -291,7 +303,7 @@ def variants_for(s, r):
         return ["plain", "seen"] + MASKS
     if kind == "idle_unsettled" or (kind == "idle_settled" and not r.get("noticed")):
         return ["plain", "unsettled", "late"] + MASKS
-    if kind in ("startup_gen", "startup_reduce"):
+    if kind in ("startup_gen", "startup_reduce", "submit_window"):
         return ["plain", "late"] + MASKS
     return ["plain"]
 
@@ -317,6 +329,8 @@ def macros(s, variant):
         m += kills + (["MMgr 3"] if variant == "plain" else []) + ok_call
     elif kind == "startup_gen":
         m += ["MCall %d 0 []" % n] + kills + ["MDispatch %d" % burst, "MRounds %d" % R]
+    elif kind == "submit_window":
+        m += ["MCall 1 0 []"] + kills + ["MDispatch 1", "MRounds %d" % R]
     elif kind == "startup_reduce":
         m += ["MCall %d %d []" % (n, burst)] + kills + ["MRounds %d" % R]
     else:
